@@ -193,16 +193,27 @@ func runC12(h rmHist) (res *c12result, opens int64, loads int64) {
 	// loading): the reopened store reports the same commit id and content, and its next Commit is
 	// version latest+1 with the content written, which a further reopen reports too
 	final := s.rs.LastCommitID()
-	if final.Version >= 1 {
+	if final.Version >= 1 && !h.SkipSettings {
 		base := db.Snapshot()
 		for _, p2 := range rmPrunings {
-			for _, lazy := range []bool{false, true} {
-				if p2 == h.Pruning && !lazy {
+			for _, mode := range []string{"eager", "lazy", "set-after-load"} {
+				lazy := mode == "lazy"
+				if p2 == h.Pruning && mode != "lazy" {
 					continue
 				}
 				opens++
 				db2 := crashdb.FromSnapshot(base, nil)
-				s6, err := rmOpenLazy(db2, h.N, p2, -1, lazy)
+				var s6 *rmStore
+				var err error
+				if mode == "set-after-load" {
+					// the options are changed on the loaded store (rootmulti.SetPruning hands them to the
+					// substores that are already loaded)
+					if s6, err = rmOpenLazy(db2, h.N, h.Pruning, -1, false); err == nil {
+						s6.rs.SetPruning(stypes.NewPruningOptions(p2[0], p2[1]))
+					}
+				} else {
+					s6, err = rmOpenLazy(db2, h.N, p2, -1, lazy)
+				}
 				if err != nil {
 					return fail("reopen-with-other-settings", "reopen with pruning (%d,%d) lazy=%v fails: %v", p2[0], p2[1], lazy, err)
 				}
@@ -230,6 +241,38 @@ func runC12(h rmHist) (res *c12result, opens int64, loads int64) {
 				}
 				if got, want := s7.content(0), m.iterate(nil, nil, true); !pairsEqual(got, want) {
 					return fail("reopen-with-other-settings-content", "after reopening with pruning (%d,%d) lazy=%v and one commit store %s holds [%s], written [%s]", p2[0], p2[1], lazy, rmName(0), pairsString(got), pairsString(want))
+				}
+				// two more commits on the same handle; the versions committed since the settings changed
+				// are retained / released by the new options (older ones were kept or released under the
+				// old options and are not judged)
+				F := final.Version
+				after := map[int64]kvMap{F + 1: m.clone()}
+				for i, ch := range []int{1, 4} {
+					rmApplyChoice(s6.kv(0), m, ch)
+					func() {
+						defer func() { cerr = recover() }()
+						cid = s6.rs.Commit()
+					}()
+					if cerr != nil || cid.Version != F+2+int64(i) {
+						return fail("commit-after-reopen-with-other-settings", "mode %s pruning (%d,%d): commit %d after the change returned version %d / panic %v", mode, p2[0], p2[1], i+2, cid.Version, cerr)
+					}
+					after[cid.Version] = m.clone()
+				}
+				snap2 := db2.Snapshot()
+				for u := F + 1; u <= F+3; u++ {
+					loads++
+					s8, lerr := rmOpenLazy(crashdb.FromSnapshot(snap2, nil), h.N, p2, u, false)
+					if rmRetained(u, F+3, p2) {
+						if lerr != nil {
+							return fail("retained-version-unreadable-after-settings-change|"+mode, "options (%d,%d) in force since version %d (%s; before: (%d,%d)): version %d is retained at version %d but LoadVersion fails: %v", p2[0], p2[1], F, mode, h.Pruning[0], h.Pruning[1], u, F+3, lerr)
+						}
+						if got, want := s8.content(0), after[u].iterate(nil, nil, true); !pairsEqual(got, want) {
+							return fail("loaded-content-after-settings-change|"+mode, "options (%d,%d) since version %d (%s): LoadVersion(%d) store %s holds [%s], committed [%s]", p2[0], p2[1], F, mode, u, rmName(0), pairsString(got), pairsString(want))
+						}
+					} else if lerr == nil && mode != "lazy" {
+						// (a lazily loaded tree does not release versions it has not loaded; only eager handles are judged here)
+						return fail("pruned-version-readable-after-settings-change|"+mode, "options (%d,%d) since version %d (%s): version %d should have been released by version %d but loads", p2[0], p2[1], F, mode, u, F+3)
+					}
 				}
 			}
 		}
@@ -332,7 +375,7 @@ func C12(tier string) int {
 	run.Set("jobs", desc)
 	run.Set("reopens", opens)
 	run.Set("load_version_calls", loads)
-	run.Set("rule", "every write history (per version and per substore one of {nothing, k1=a, k1=b, delete k1, k2=a, k1=a+delete k2}) over N IAVL substores + 1 transient store, V versions, each of 7 pruning options, with store names s1,s2,... and again (N >= 2) with names that are proper prefixes of each other (acc, accounts); after every commit: reopen on a copy (LoadLatestVersion) and LoadVersion(u) for every u in 1..latest+1; before every commit: every retained version loaded on a CopyStore of the live multistore while the writes are pending; at the end: failed loads on the live handle, and a reopen under every other pruning option with and without lazy loading followed by one more commit. Histories are distinct by construction; non-trivial = the content of some store differs between two versions (a write or delete that takes effect)")
+	run.Set("rule", "every write history (per version and per substore one of {nothing, k1=a, k1=b, delete k1, k2=a, k1=a+delete k2}) over N IAVL substores + 1 transient store, V versions, each of 7 pruning options, with store names s1,s2,... and again (N >= 2) with names that are proper prefixes of each other (acc, accounts); after every commit: reopen on a copy (LoadLatestVersion) and LoadVersion(u) for every u in 1..latest+1; before every commit: every retained version loaded on a CopyStore of the live multistore while the writes are pending; at the end: failed loads on the live handle, and a reopen under every other pruning option (eagerly, lazily, or with the options changed on the loaded store) followed by three commits, after which the versions committed since are loaded: those the new options retain must read as committed, the others must be gone. Histories are distinct by construction; non-trivial = the content of some store differs between two versions (a write or delete that takes effect)")
 	run.Sample(rmHist{N: 2, Choice: [][]int{{1, 4}, {3, 0}, {2, 5}}, Pruning: [2]int64{0, 2}}.String())
 	run.Assume("MemDB stands in for the on-disk database", "retention rule: commit w releases version w-1-keepRecent unless it is a multiple of keepEvery (store/iavl documentation)", "LoadVersion(0) is not judged (0 is not a committed version)")
 	return run.Finish()
